@@ -58,3 +58,11 @@ Fixpoint listQ_eqb (a b : list Q) : bool :=
   end.
 Definition check_dones (env_dones dones : list Q) (next_done : Q) : bool :=
   let '(ds, nd) := record_dones 0 env_dones in listQ_eqb ds dones && Qeq_bool nd next_done.
+
+(* the index arrays of all minibatches of all epochs, in the order learn() asked for them *)
+Fixpoint listnat_eqb (a b : list nat) : bool :=
+  match a, b with [], [] => true | x :: a', y :: b' => Nat.eqb x y && listnat_eqb a' b' | _, _ => false end.
+Fixpoint listlist_eqb (a b : list (list nat)) : bool :=
+  match a, b with [], [] => true | x :: a', y :: b' => listnat_eqb x y && listlist_eqb a' b' | _, _ => false end.
+Definition check_minis (N B : nat) (perms : list (list nat)) (seen : list (list nat)) : bool :=
+  listlist_eqb (concat (learn_minibatch_idxs N B perms)) seen.
